@@ -201,13 +201,63 @@ theorem reopened_job_sends_same_request (dir : Bool) (ops : List Op) (hw : ∀ o
     (i : Nat) (j : Job) (hj : (exec (step fixed) (create fixed dir) ops).mem[i]? = some j)
     (hs : j.st ≠ .success) :
     ∃ j', (reload fixed (exec (step fixed) (create fixed dir) ops))[i]? = some j' ∧
-      norm j = .ok j ∧ norm j' = .ok j' ∧ j'.req = j.req ∧ j'.id = j.id := by
+      norm j = .ok j ∧ norm j' = .ok j' ∧ j'.req = j.req ∧ j'.id = j.id ∧ j.js = true ∧ j'.js = true := by
   have h := exec_inv dir ops hw
   have hg := h.good j (List.mem_of_getElem? hj)
   obtain ⟨h1, h2, h3⟩ := fromDict_req hs
-  refine ⟨fromDict fixed (toDict j), ?_, hg.2 hs, (good_fromDict hg).2 h3, h1, h2⟩
+  refine ⟨fromDict fixed (toDict j), ?_, (hg.2 hs).1, ((good_fromDict hg).2 h3).1, h1, h2, (hg.2 hs).2,
+    ((good_fromDict hg).2 h3).2⟩
   rw [reload_eq h, reloadList_getElem?, hj]
   rfl
+
+/-! ### 3b. the stored body *is* the request: bodies are made of JSON values
+
+The `rest` token of a request stands for the request as it leaves for the server (`execute_async` sends
+`serialize(body)`, encoded as JSON).  `r.req = r.stored` above is an equality of such tokens; it describes the code
+only if writing a body to the file and reading it back does not change that form — true for bodies made of JSON
+values, false for a body holding e.g. a `BasicState` or a `NoiseModel` (what a `Sampler` with iterations puts in
+`payload['iterator']`): `serialize` gives those a tagged text, any JSON rendering of the object itself another.
+`Job.js` says whether the body is made of JSON values; the two statements below are why the token equality is
+sound: no job whose body would have to be written ever has `js = false`, because `add` refuses such a job
+(`json.dumps` raises `TypeError` before the file is touched, `add` takes the job back). -/
+
+/-- **stored_bodies_are_json.**  In every reachable state every job whose body the file holds (every job that is
+not SUCCESS) has a body made of JSON values. -/
+theorem stored_bodies_are_json (dir : Bool) (ops : List Op) (hw : ∀ op ∈ ops, WFOp op) (j : Job)
+    (hj : j ∈ (exec (step fixed) (create fixed dir) ops).mem) (hs : j.st ≠ .success) : j.js = true :=
+  (((exec_inv dir ops hw).good j hj).2 hs).2
+
+/-- **non_json_body_refused.**  In every reachable state, `add` of a job that is not SUCCESS and whose body holds
+a value that is not JSON raises, and memory, the file and the server's counter are what they were. -/
+theorem non_json_body_refused (dir : Bool) (ops : List Op) (hw : ∀ op ∈ ops, WFOp op) (j : Job) (kw : Option Nat)
+    (hjs : j.js = false) (hs : j.st ≠ .success) :
+    ∃ e, (step fixed (exec (step fixed) (create fixed dir) ops) (.add j kw)).2.res = .raised e ∧
+      (step fixed (exec (step fixed) (create fixed dir) ops) (.add j kw)).1.mem =
+        (exec (step fixed) (create fixed dir) ops).mem ∧
+      (step fixed (exec (step fixed) (create fixed dir) ops) (.add j kw)).1.disk =
+        (exec (step fixed) (create fixed dir) ops).disk ∧
+      (step fixed (exec (step fixed) (create fixed dir) ops) (.add j kw)).1.next =
+        (exec (step fixed) (create fixed dir) ops).next := by
+  have h := inv_script3 (exec_inv dir ops hw) [] [] []
+  obtain ⟨e, he⟩ := addOp_not_json h kw hjs hs
+  refine ⟨e, ?_, ?_, ?_, ?_⟩ <;> simp only [step, clearScript, he]
+
+/-- a job as a `Sampler` with iterations builds it: the body holds `BasicState` objects -/
+def iterJob : Job :=
+  { plainJob with js := false,
+                  req := some { jobName := none, payload := { rest := 2, maxSamples := none, maxShots := none, ctx := none } } }
+
+/-- non-vacuity: such a job is refused with `TypeError` between two plain jobs, the group is re-opened and launched:
+two jobs, two requests, each equal to the stored body; the same job already SUCCESS (sent outside the group) is
+accepted — its body is not written -/
+example :
+    let r := run (step fixed) (create fixed true)
+      [Op.add plainJob none, .add iterJob none, .add iterJob (some 5), .add plainJob none, .reopen,
+       launchPar [.accept 0, .accept 0], .add { iterJob with id := some 9, st := .success } none]
+    r.2.map (·.res) = [.ok, .raised .typeError, .raised .runtimeError, .ok, .ok, .ok, .ok] ∧
+    r.1.mem.map (·.id) = [some 0, some 1, some 9] ∧
+    (r.1.disk.getD []).map (fun e => e.body.isSome) = [true, true, false] ∧
+    r.1.sent.map (fun x => decide (x.req = x.stored)) = [true, true] := by decide
 
 /-- non-vacuity: a job with a context, re-opened, then launched: one request left, with the context -/
 example :
